@@ -1,7 +1,8 @@
 """Small dump files of every format for the C15/C18 engines, made with the test
 suite's own writers (tests/mkdiskdump, mkelf, mklkcd, mksadump).
 
-All files carry the same memory image: page 0 (pattern), page 1 (string "linux"),
+All files carry the same memory image: page 0 (pattern), page 1 (string "linux"), pages 3-4 (a
+string of 4112 bytes crossing the page boundary),
 a three-level x86-64 page table at 0x2e10000.. mapping virtual 0 to the 2 MiB page at
 0x2000000 whose first bytes are 01 23 45 67 89 ab cd ef (the layout of the suite's
 multixlat test)."""
@@ -15,6 +16,8 @@ ROOTPGT = 0x2e10000
 PAGES = [
     (0x0, "55*0x100\naa*0x100\n00*3584"),
     (0x1000, "6c 69 6e 75 78 00\n00*4090"),
+    (0x3000, "41*4096"),                     # a string that starts here runs into the next page
+    (0x4000, "42*16\n00*4080"),
     (0x2000000, "01 23 45 67 89 ab cd ef\n00*4088"),
     (0x2e10000, "0000000002e11067 0000000000000000*511"),
     (0x2e11000, "0000000002e12067 0000000000000000*511"),
@@ -163,6 +166,73 @@ def _find_descriptors(data, npages, block=4096):
     raise RuntimeError("page descriptor array not found")
 
 
+def _noise(n, seed):
+    """n incompressible bytes (hex words for the suite's writers): a page body of 4000 zeros
+    followed by 3000 bytes of this compresses to less than a page, and when the decompressor's
+    output buffer (one page) is full most of the compressed input is still unread"""
+    import random
+    r = random.Random(seed)
+    return "\n".join(" ".join("%02x" % r.randrange(256) for _ in range(32)) for _ in range(n // 32))
+
+
+def elf_s390x_osinfo(d, name="elf-s390x-osinfo", pad=3000):
+    """An s390x ELF core whose lowcore (0xe18) points to a valid os_info block (magic, header and
+    entry checksums) with a non-empty VMCOREINFO entry: setting addrxlat.ostype = linux makes the
+    library read VMCOREINFO through the lowcore.  (Layout of the seeded change C15-c1's demo.)"""
+    import struct
+    PAGE = 4096
+
+    def cksum32(b, c=0):
+        n4 = len(b) // 4 * 4
+        for i in range(0, n4, 4):
+            c += struct.unpack_from(">I", b, i)[0]
+            if c > 0xffffffff:
+                c = (c & 0xffffffff) + 1
+        rest = b[n4:]
+        if rest:
+            val = 0
+            for x in rest:
+                val = (val >> 8) | (x << 24)
+            c += val
+            if c > 0xffffffff:
+                c = (c & 0xffffffff) + 1
+        return c
+
+    vmci = b"OSRELEASE=6.1.0-res\nPAGESIZE=4096\nFILLER=" + b"x" * pad + b"\n"
+    vpages = (len(vmci) + PAGE - 1) // PAGE
+    memsz = (2 + vpages) * PAGE
+    img = bytearray(PAGE + memsz)
+    ident = b"\x7fELF" + bytes([2, 2, 1]) + bytes(9)
+    struct.pack_into(">16sHHIQQQIHHHHHH", img, 0, ident, 4, 22, 1, 0, 64, 0, 0, 64, 56, 1, 0, 0, 0)
+    struct.pack_into(">IIQQQQQQ", img, 64, 1, 4, PAGE, 0, 0, memsz, memsz, PAGE)
+    mem = PAGE
+    struct.pack_into(">Q", img, mem + 0xe18, PAGE)
+    osi = mem + PAGE
+    struct.pack_into(">Q", img, osi, 0x4f53494e464f535a)
+    struct.pack_into(">HHQQQQI", img, osi + 12, 1, 0, 0, 0, 2 * PAGE, len(vmci), cksum32(vmci))
+    struct.pack_into(">I", img, osi + 8, cksum32(bytes(img[osi + 12:osi + PAGE])))
+    img[mem + 2 * PAGE:mem + 2 * PAGE + len(vmci)] = vmci
+    path = os.path.join(d, name + ".dump")
+    with open(path, "wb") as f:
+        f.write(img)
+    return path
+
+
+def lkcd_bad(d, name="lkcd-bad"):
+    """An LKCD dump (gzip) with a page whose stream expands to more than a page with compressed
+    input left over when the page is full, next to good pages.  (path, bad addresses, good ones)"""
+    data = os.path.join(d, name + ".data")
+    with open(data, "w") as f:
+        f.write("@0x0 raw\n55*4096\n")
+        f.write("@0x1000 compress\n00*4000\n%s\n" % _noise(3008, 11))
+        f.write("@0x2000 compress\n6c 69 6e 75 78 00\n00*4090\n")
+        f.write("@0x3000 compress\n33*5000\n")
+        f.write("@0x4000 raw\n77*4096\n")
+    params = ("arch_name = x86_64\npage_shift = 12\npage_offset = 0xffff880000000000\nNR_CPUS = 8\n"
+              "num_cpus = 1\ncompression = 2\nDATA = %s\n" % data)
+    return _run("mklkcd", os.path.join(d, name + ".dump"), params), [0x1000, 0x3000], [0x0, 0x2000, 0x4000]
+
+
 def bad_pages_diskdump(d, name="ddbad"):
     """A diskdump whose compressed pages cannot be turned into a page, for every
     compression method compiled in: a well-formed stream that expands to less than a page,
@@ -176,7 +246,7 @@ def bad_pages_diskdump(d, name="ddbad"):
     idx = 0
     with open(data, "w") as f:
         for m in ("zlib", "snappy", "zstd"):
-            for body, kind in (("11*100", "short"), ("33*5000", "long"),
+            for body, kind in (("11*100", "short"), ("33*5000", "long"), ("00*4000\n" + _noise(3008, 7), "long-noise"),
                                (" ".join("%02x*16" % i for i in range(256)), "trunc")):
                 f.write("@%#x %s\n%s\n" % (a, m, body))
                 bad.append(a)
